@@ -109,6 +109,8 @@ def shard(ctx):
         iso3, options = case
         run_case(ctx, iso3, options, "c03_%d_%d" % (ctx.shard, ctx.evaluations))
     drive(ctx, strategy(), body, 100 if thorough else 8, shrink=False, tag="runs")
+    # the extremes of the input table are always run (absolute thresholds and tolerances bite at the smallest rows), two thresholds
+    model.run_fixed(ctx, model.extreme_cases(thresholds=(100.0, 2.5)), lambda iso, o, k: (ctx.count(), run_case(ctx, iso, o, "c03x_%s" % iso)))
     if thorough:
         isos = model.iso3_list()
         climates = [dict(), dict(crop_disruption="country_nuclear_winter", grasses="country_nuclear_winter", fish="nuclear_winter")]
